@@ -1,0 +1,201 @@
+//! Verification hooks (feature `verif-hooks`).
+//!
+//! Additive instrumentation used by the external model-checking harness in
+//! `/verif`. Nothing here is compiled unless the feature is enabled, and the
+//! workspace itself never enables it.
+//!
+//! The only hook that touches product code paths is [`tamper`], called from
+//! inside the value closure of `Region::assign_advice`: a thread-local *plan*
+//! maps the index of an advice assignment (counted in the order in which the
+//! value closures are really invoked) to a fault. With an empty plan the hook
+//! only counts.
+#![allow(unsafe_code)]
+#![allow(missing_docs)]
+#![allow(missing_debug_implementations)]
+
+use std::cell::RefCell;
+
+use ff::Field;
+
+use crate::{circuit::Value, utils::rational::Rational};
+
+/// A fault applied to the honest value `v` of one advice assignment.
+#[derive(Clone, Debug, PartialEq, Eq)]
+pub enum Fault {
+    /// `v + c` for a small signed constant.
+    Add(i64),
+    /// `v + 2^j`.
+    AddPow2(u32),
+    /// `v - 2^j`.
+    SubPow2(u32),
+    /// `v + c` where `c = sum limbs[i] * 2^(64 i)`.
+    AddBits([u64; 4]),
+    /// Replace by `c = sum limbs[i] * 2^(64 i)`.
+    Set([u64; 4]),
+    /// Replace by `1 - v`.
+    OneMinus,
+    /// Replace by `-v`.
+    Neg,
+    /// Replace by `v * c`.
+    MulSmall(u64),
+    /// Replace by a pseudo-random element derived from the seed.
+    Random(u64),
+}
+
+/// How the fault is injected.
+#[derive(Clone, Copy, Debug, PartialEq, Eq)]
+pub enum Mode {
+    /// The faulty value is written to the table *and* returned in the
+    /// `AssignedCell`, so the caller's witness generation continues from it.
+    Propagate,
+    /// The faulty value is written to the table only; the caller keeps
+    /// computing from the honest value.
+    TableOnly,
+}
+
+#[derive(Clone, Debug)]
+pub struct Applied {
+    pub index: u64,
+    pub column: usize,
+    pub offset: usize,
+    /// Whether the fault changed the value at all.
+    pub changed: bool,
+}
+
+#[derive(Default)]
+struct State {
+    plan: Vec<(u64, Fault, Mode)>,
+    counter: u64,
+    untamperable: u64,
+    applied: Vec<Applied>,
+}
+
+thread_local! {
+    static STATE: RefCell<State> = RefCell::new(State::default());
+}
+
+/// Clears plan, counters and log of the current thread.
+pub fn reset() {
+    STATE.with(|s| *s.borrow_mut() = State::default());
+}
+
+/// Installs a plan (and resets counters) for the current thread.
+pub fn set_plan(plan: Vec<(u64, Fault, Mode)>) {
+    STATE.with(|s| {
+        *s.borrow_mut() = State {
+            plan,
+            ..State::default()
+        }
+    });
+}
+
+/// (tamperable assignments seen, assignments whose value type is not the
+/// field itself).
+pub fn counters() -> (u64, u64) {
+    STATE.with(|s| {
+        let s = s.borrow();
+        (s.counter, s.untamperable)
+    })
+}
+
+/// Log of the plan entries that fired.
+pub fn applied() -> Vec<Applied> {
+    STATE.with(|s| s.borrow().applied.clone())
+}
+
+fn from_bits<F: Field>(limbs: &[u64; 4]) -> F {
+    let mut acc = F::ZERO;
+    for limb in limbs.iter().rev() {
+        for i in (0..64).rev() {
+            acc = acc.double();
+            if (limb >> i) & 1 == 1 {
+                acc += F::ONE;
+            }
+        }
+    }
+    acc
+}
+
+fn pow2<F: Field>(j: u32) -> F {
+    let mut acc = F::ONE;
+    for _ in 0..j {
+        acc = acc.double();
+    }
+    acc
+}
+
+/// Applies `fault` to `v`.
+pub fn apply_fault<F: Field>(fault: &Fault, v: F) -> F {
+    match fault {
+        Fault::Add(c) => {
+            let m = from_bits::<F>(&[c.unsigned_abs(), 0, 0, 0]);
+            if *c >= 0 {
+                v + m
+            } else {
+                v - m
+            }
+        }
+        Fault::AddPow2(j) => v + pow2::<F>(*j),
+        Fault::SubPow2(j) => v - pow2::<F>(*j),
+        Fault::AddBits(l) => v + from_bits::<F>(l),
+        Fault::Set(l) => from_bits::<F>(l),
+        Fault::OneMinus => F::ONE - v,
+        Fault::Neg => -v,
+        Fault::MulSmall(c) => v * from_bits::<F>(&[*c, 0, 0, 0]),
+        Fault::Random(seed) => {
+            use rand_core::SeedableRng;
+            F::random(rand_chacha::ChaCha8Rng::seed_from_u64(*seed))
+        }
+    }
+}
+
+/// Hook called from `Region::assign_advice` with the value the caller's
+/// closure produced. Returns the value to hand back to the caller and, if
+/// the table must receive something else, the table value.
+pub(crate) fn tamper<F: Field, VR>(
+    v: Value<VR>,
+    column: usize,
+    offset: usize,
+) -> (Value<VR>, Option<Value<Rational<F>>>) {
+    if std::any::type_name::<VR>() != std::any::type_name::<F>()
+        || std::mem::size_of::<VR>() != std::mem::size_of::<F>()
+    {
+        STATE.with(|s| s.borrow_mut().untamperable += 1);
+        return (v, None);
+    }
+    let hit = STATE.with(|s| {
+        let mut s = s.borrow_mut();
+        let idx = s.counter;
+        s.counter += 1;
+        s.plan.iter().find(|(i, _, _)| *i == idx).map(|(i, f, m)| (*i, f.clone(), *m))
+    });
+    let Some((index, fault, mode)) = hit else {
+        return (v, None);
+    };
+    // SAFETY: `VR` and `F` are the same type (checked by name and size
+    // above); `F: Field` is `Copy`, so a bitwise copy is a valid value.
+    let honest: Value<F> = unsafe { std::mem::transmute_copy::<Value<VR>, Value<F>>(&v) };
+    let mut changed = false;
+    let faulty: Value<F> = honest.map(|h| {
+        let f = apply_fault(&fault, h);
+        changed = f != h;
+        f
+    });
+    STATE.with(|s| {
+        s.borrow_mut().applied.push(Applied {
+            index,
+            column,
+            offset,
+            changed,
+        })
+    });
+    match mode {
+        Mode::Propagate => {
+            // SAFETY: as above.
+            let out: Value<VR> = unsafe { std::mem::transmute_copy::<Value<F>, Value<VR>>(&faulty) };
+            std::mem::forget(v);
+            (out, None)
+        }
+        Mode::TableOnly => (v, Some(faulty.map(Rational::Trivial))),
+    }
+}
